@@ -126,10 +126,13 @@ def run_replay(mod, path):
         return 0
     ctx = core.Ctx(mod.ID, "quick", 0)
     core.install_step_monitor(env.REPO + os.sep)
-    try:
-        mod.run_case(case, ctx)
-    except core.Violation as v:
-        print("replay: monitor %s fired: %s" % (v.monitor, v.detail))
+    shrink = getattr(mod, "shrink", None)
+    if shrink is not None:
+        mod.shrink = lambda c, m: c      # a replay is run as it is
+    core.run_case_guarded(mod, case, ctx)
+    if ctx.violations:
+        v = ctx.violations[0]
+        print("replay: monitor %s fired: %s" % (v["monitor"], v["detail"]))
         print("VIOLATION property=%s replay=%s" % (mod.ID, path))
         return 1
     print("replay: no violation (property=%s, %s)" % (mod.ID, path))
